@@ -81,8 +81,21 @@ func verifItems(label string, n int, kinds int) system.Collection {
 	return c
 }
 
+// verifItemsOf draws n items whose kinds come from the given list (0 Integer, 1 String, 2 FHIR integer, 3 complex).
+func verifItemsOf(label string, n int, kinds []int) system.Collection {
+	c := make(system.Collection, 0, n)
+	for i := 0; i < n; i++ {
+		c = append(c, verifItemKind(label, kinds[verifrt.Choose(label+".kind", len(kinds))]))
+	}
+	return c
+}
+
 func verifItem(label string, kinds int) any {
-	switch verifrt.Choose(label+".kind", kinds) {
+	return verifItemKind(label, verifrt.Choose(label+".kind", kinds))
+}
+
+func verifItemKind(label string, kind int) any {
+	switch kind {
 	case 0:
 		return system.Integer(verifrt.NondetIntRange(label+".i", 0, 3))
 	case 1:
